@@ -42,7 +42,7 @@ def run(sub, args=()):
 def confirm(name, prop, finding):
     if name == "cli":
         import native_cli
-        ok, info = native_cli.confirm_c15() if prop == "C15" else native_cli.confirm_c16()
+        ok, info = native_cli.confirm_c15() if prop == "C15" else native_cli.confirm_c17() if prop == "C17" else native_cli.confirm_c16()
         return bool(ok), info
     args = ()
     if name == "c11":
